@@ -453,6 +453,13 @@ fn case_append_after_stop(out: &mut CaseOut, seed: u64, idx: usize) {
                 let mut next = 0usize;
                 let mut phantom = None;
                 for r in &rb.records {
+                    // The torn record itself may come back whole: all but a few of its bytes are
+                    // in the file, and the first bytes the new writer put behind them can happen
+                    // to equal the missing ones (1 in 256 for a one-byte tear). That is the record
+                    // the dying writer was appending, not a made-up one.
+                    if *r == records[big_index] {
+                        continue;
+                    }
                     match expected[next..].iter().position(|e| e == r) {
                         Some(p) => next += p + 1,
                         None => {
